@@ -1,8 +1,288 @@
 package main
 
-import "verifharness/lib/ev"
+// Concurrent half of C14: producers and one consumer as managed goroutines around the real,
+// instrumented queue; every interleaving with <= B preemptions (and every ready-select choice).
 
-// concurrent half (E2) — added once the cooperative scheduler exists.
-func conc(r *ev.Run, exhaustive *bool) {}
+import (
+	"context"
+	"fmt"
+	"sort"
+	"strings"
 
-func replayConc(r *ev.Run, v ev.Violation) { ev.Fatal("no concurrent replay yet") }
+	"github.com/bloxapp/ssv/protocol/v2/ssv/queue"
+	"github.com/bloxapp/ssv/zzverif/vsched"
+	"github.com/bloxapp/ssv/zzverif/vtime"
+
+	"verifharness/lib/dfs"
+	"verifharness/lib/ev"
+)
+
+type prodOp struct {
+	try  bool
+	kind int
+}
+
+type consOp struct {
+	kind string // pop, trypop, popcancel
+	f    int
+}
+
+type scenario struct {
+	capacity  int
+	producers [][]prodOp
+	consumer  []consOp
+}
+
+func (s scenario) String() string {
+	var ps []string
+	for _, p := range s.producers {
+		var o []string
+		for _, x := range p {
+			n := "Push"
+			if x.try {
+				n = "TryPush"
+			}
+			o = append(o, fmt.Sprintf("%s(%s)", n, kindNames[x.kind]))
+		}
+		ps = append(ps, "["+strings.Join(o, ",")+"]")
+	}
+	var cs []string
+	for _, c := range s.consumer {
+		cs = append(cs, fmt.Sprintf("%s(%s)", c.kind, filters[c.f].name))
+	}
+	return fmt.Sprintf("cap=%d producers=%s consumer=[%s]", s.capacity, strings.Join(ps, " "), strings.Join(cs, ","))
+}
+
+type concRun struct {
+	sc       scenario
+	q        queue.Queue
+	pushed   map[*queue.DecodedSSVMessage]int // accepted pushes
+	refused  int
+	popped   []*queue.DecodedSSVMessage
+	popF     []int
+	nilPops  []string
+	blocked  *consOp // consumer is inside a blocking Pop
+	kindOf   map[*queue.DecodedSSVMessage]int
+	consDone bool
+}
+
+func (r *concRun) body() {
+	vtime.ResetClock()
+	r.q = queue.New(r.sc.capacity)
+	r.pushed = map[*queue.DecodedSSVMessage]int{}
+	r.kindOf = map[*queue.DecodedSSVMessage]int{}
+	for _, p := range r.sc.producers {
+		ops := p
+		vsched.Go(func() {
+			for _, o := range ops {
+				m := mk(o.kind)
+				r.kindOf[m] = o.kind
+				if o.try {
+					if r.q.TryPush(m) {
+						r.pushed[m]++
+					} else {
+						r.refused++
+					}
+				} else {
+					r.q.Push(m)
+					r.pushed[m]++
+				}
+			}
+		})
+	}
+	vsched.Go(func() {
+		for i := range r.sc.consumer {
+			o := r.sc.consumer[i]
+			var m *queue.DecodedSSVMessage
+			switch o.kind {
+			case "trypop":
+				m = r.q.TryPop(prios[0], filters[o.f].f)
+			case "pop":
+				r.blocked = &o
+				m = r.q.Pop(context.Background(), prios[0], filters[o.f].f)
+				r.blocked = nil
+			case "popcancel":
+				ctx, cancel := context.WithCancel(context.Background())
+				cancel()
+				m = r.q.Pop(ctx, prios[0], filters[o.f].f)
+			case "tick":
+				vtime.Advance(2_000_000) // 2ms: the next Pop reads the inbox first
+				continue
+			}
+			if m == nil {
+				r.nilPops = append(r.nilPops, o.kind)
+			} else {
+				r.popped = append(r.popped, m)
+				r.popF = append(r.popF, o.f)
+			}
+		}
+		r.consDone = true
+	})
+}
+
+func (r *concRun) oracle(x *vsched.Execution) (string, string) {
+	list, inbox := queue.VerifDump(r.q)
+	remaining := map[*queue.DecodedSSVMessage]int{}
+	for _, m := range append(list, inbox...) {
+		remaining[m]++
+	}
+	seen := map[*queue.DecodedSSVMessage]int{}
+	for i, m := range r.popped {
+		seen[m]++
+		if !filters[r.popF[i]].f(m) {
+			return "conc-pop-returned-inadmissible", fmt.Sprintf("a pop with filter %s returned %s", filters[r.popF[i]].name, kindNames[r.kindOf[m]])
+		}
+		if r.pushed[m] == 0 {
+			return "conc-pop-returned-unknown", "a pop returned a message that was never pushed successfully"
+		}
+	}
+	for m, n := range r.pushed {
+		if seen[m]+remaining[m] != n {
+			if seen[m]+remaining[m] < n {
+				return "conc-message-lost", fmt.Sprintf("%s was pushed successfully, never returned by a pop, and is not queued any more", kindNames[r.kindOf[m]])
+			}
+			return "conc-message-duplicated", fmt.Sprintf("%s pushed once is returned/queued %d times", kindNames[r.kindOf[m]], seen[m]+remaining[m])
+		}
+	}
+	for m := range remaining {
+		if r.pushed[m] == 0 {
+			return "conc-unknown-message-queued", "the queue holds a message that was never pushed successfully"
+		}
+	}
+	if r.q.Len() != len(list)+len(inbox) {
+		return "conc-len-mismatch", "Len() disagrees with the queue content"
+	}
+	// a blocked Pop must return once an admissible message is queued
+	if !r.consDone && r.blocked != nil {
+		for m := range remaining {
+			if filters[r.blocked.f].f(m) {
+				return "conc-pop-blocked-with-admissible", fmt.Sprintf("the consumer is blocked in Pop(%s) although admissible %s is queued", filters[r.blocked.f].name, kindNames[r.kindOf[m]])
+			}
+		}
+	}
+	// producers may only be blocked in Push on a full inbox
+	return "", ""
+}
+
+func concScenarios(thorough bool) []scenario {
+	var out []scenario
+	kinds := []int{0, 2, 5} // execDuty, proposal, commitLowerH
+	var prodScripts [][]prodOp
+	for _, try := range []bool{false, true} {
+		for _, k := range kinds {
+			prodScripts = append(prodScripts, []prodOp{{try, k}})
+		}
+	}
+	prodScripts = append(prodScripts, []prodOp{{false, 2}, {true, 0}}, []prodOp{{true, 5}, {false, 0}})
+	consScripts := [][]consOp{
+		{{"pop", 0}, {"trypop", 0}},
+		{{"pop", 2}, {"trypop", 0}, {"trypop", 0}},
+		{{"trypop", 2}, {"pop", 0}, {"popcancel", 0}},
+		{{"popcancel", 2}, {"tick", 0}, {"pop", 0}, {"trypop", 0}},
+		{{"trypop", 0}, {"trypop", 1}, {"popcancel", 0}, {"popcancel", 0}},
+	}
+	caps := []int{1, 2}
+	for _, c := range caps {
+		for i, p1 := range prodScripts {
+			for j, p2 := range prodScripts {
+				if j < i {
+					continue // producers are symmetric
+				}
+				if !thorough && (i+j)%2 == 1 {
+					continue
+				}
+				for _, cs := range consScripts {
+					out = append(out, scenario{c, [][]prodOp{p1, p2}, cs})
+				}
+			}
+		}
+	}
+	return out
+}
+
+func conc(r *ev.Run, exhaustive *bool) {
+	bound := 2
+	if r.Thorough() {
+		bound = 3
+	}
+	scs := concScenarios(r.Thorough())
+	outcomes := map[string]int{}
+	schedules, maxPoints := 0, 0
+	done := 0
+	for _, sc := range scs {
+		var cur *concRun
+		e := &dfs.Explorer{Bound: bound, Stop: r.Expired,
+			Body: func() {
+				cur = &concRun{sc: sc}
+				cur.body()
+			},
+			Check: func(x *vsched.Execution, choices []int) {
+				sig, what := cur.oracle(x)
+				var got []string
+				for _, m := range cur.popped {
+					got = append(got, kindNames[cur.kindOf[m]])
+				}
+				sort.Strings(got)
+				key := fmt.Sprintf("popped=%v refused=%d nil=%d blockedAtEnd=%v", got, cur.refused, len(cur.nilPops), x.Deadlock)
+				outcomes[key]++
+				if sig != "" {
+					r.Violate(sig, what+" ["+sc.String()+"]", "c14-conc", map[string]interface{}{"scenario": sc.String(), "scenario_index": done, "choices": choices}, key, nil)
+				}
+			}}
+		e.Explore()
+		schedules += e.Executions
+		if e.MaxPoints > maxPoints {
+			maxPoints = e.MaxPoints
+		}
+		if e.EngineErr != "" {
+			ev.Fatal("scheduler: %s (scenario %s)", e.EngineErr, sc)
+		}
+		if e.Capped {
+			*exhaustive = false
+			r.CapHit(fmt.Sprintf("deadline: %d of %d concurrent scenarios explored", done, len(scs)))
+			break
+		}
+		done++
+	}
+	r.Add("transitions", schedules)
+	r.Set("concurrent_scenarios", done)
+	r.Set("concurrent_schedules", schedules)
+	r.Set("concurrent_preemption_bound", bound)
+	r.Set("concurrent_max_choice_points", maxPoints)
+	r.Set("concurrent_distinct_outcomes", len(outcomes))
+	r.Set("traces_validated_against_impl", r.Get("transitions"))
+	r.Sample(map[string]interface{}{"concurrent_scenario": scs[0].String(), "explored": fmt.Sprintf("every interleaving with <= %d preemptions and every ready-select choice", bound)})
+	r.Assume("concurrent half: queue.go rewritten from /repo at check time (channel sends/receives and selects gated, time -> virtual clock); 2 producers x 1-2 pushes, one consumer x 2-4 pops, capacities 1 and 2; sequentially consistent memory at channel operations; data races left to a -race pass")
+}
+
+func replayConc(r *ev.Run, v ev.Violation) {
+	t := v.Trace.(map[string]interface{})
+	idx := int(t["scenario_index"].(float64))
+	var sc scenario
+	found := false
+	for _, th := range []bool{false, true} {
+		scs := concScenarios(th)
+		if idx < len(scs) && scs[idx].String() == t["scenario"].(string) {
+			sc, found = scs[idx], true
+			break
+		}
+	}
+	if !found {
+		ev.Fatal("scenario not found")
+	}
+	var choices []int
+	for _, c := range t["choices"].([]interface{}) {
+		choices = append(choices, int(c.(float64)))
+	}
+	var cur *concRun
+	e := &dfs.Explorer{Body: func() { cur = &concRun{sc: sc}; cur.body() }}
+	x := e.Replay(choices)
+	sig, what := cur.oracle(x)
+	fmt.Println("scenario:", sc, "engine:", x.Err, "deadlock:", x.Deadlock, x.Blocked)
+	if sig != "" {
+		fmt.Printf("VIOLATION property=C14 replay=%s\n  %s: %s\n", r.Replay, sig, what)
+	} else {
+		fmt.Println("not reproduced")
+	}
+	r.Finish(false)
+}
